@@ -7,7 +7,8 @@
    Termination of the Go loops is a fact about Go: what is proved is that the model never runs out of
    its fuel (= input length), i.e. every iteration consumes at least one byte. *)
 From Coq Require Import ZArith Bool List.
-From IVG Require Import SF NumCodec Color Calls Decoder DecProofs Prefix.
+From IVG Require Import SF NumCodec Color Calls Decoder DecProofs Prefix Render GoMath RenderProofs WorkBound.
+From IVG Require Arc.
 Import ListNotations.
 Local Open Scope Z_scope.
 
@@ -43,6 +44,17 @@ Print Assumptions prefix_monotone.
 Theorem truncation_prefix : forall os b k, is_prefix (fst (decode_calls os (firstn k b))) (fst (decode_calls os b)).
 Proof. exact Prefix.decode_truncation_prefix. Qed.
 Print Assumptions truncation_prefix.
+
+(* rasteriser activity is linear: a Renderer issues at most 1000 rasteriser calls per Destination call (at most
+   2 for anything but an arc; the code caps an arc's segment count below 1000, and over the reals it is at most
+   4: C06 four_segments), and every Destination call is charged to its own input byte (calls_le_bytes) *)
+Theorem call_work_bounded : forall s c, (length (r_log (Arc.rstep32 s c)) <= length (r_log s) + 1000)%nat.
+Proof. exact WorkBound.call_work_bounded. Qed.
+Print Assumptions call_work_bounded.
+
+Theorem work_linear : forall l s, (length (r_log (Arc.rrun32 s l)) <= length (r_log s) + 1000 * length l)%nat.
+Proof. exact WorkBound.work_linear. Qed.
+Print Assumptions work_linear.
 
 Example ex_truncated : decode_calls [] [137; 73; 86; 71; 0; 192; 128] = ([CReset default_viewbox default_palette], Fail EInvalidNumber).
 Proof. vm_compute. reflexivity. Qed.
